@@ -460,7 +460,7 @@ def run_unit(spec, tier, repo_root=None, variant=None, keep=None, extra_defs=())
         res['checker_cmd'] = ' | '.join(' '.join(os.path.basename(x) if x.startswith(workdir) else x for x in c)
                                         for c in b['cmds'] + [cmd])
         tmo = spec['timeout'].get(tier, 300 if tier == 'quick' else 1800)
-        rc, out, err, w = run(cmd, tmo, spec['memlimit_gb'] or 16, cwd=workdir)
+        rc, out, err, w = run(cmd, tmo, spec['memlimit_gb'] or 10, cwd=workdir)
         res['solver_s'] = round(w, 2)
         if rc is None:
             res['reason'] = 'cbmc timeout after %ds' % tmo
